@@ -691,7 +691,9 @@ def handle (j : Json) : Except String Json := do
         let q0 ← o.getNat?
         let K := A.kernelOf q0
         let root := (K.head?.map (·.1.lhs)).getD 0
-        pure (Json.bool (decide (q0 < items.length) && !K.isEmpty && K.all (fun x => x.2 == 0 && x.1.lhs == root && rules.contains x.1)))
+        -- (also: every state has a kernel item — hypothesis `hne` of LRProto.consumed_is_viable_prefix)
+        pure (Json.bool (decide (q0 < items.length) && !K.isEmpty && K.all (fun x => x.2 == 0 && x.1.lhs == root && rules.contains x.1) &&
+                         (List.range items.length).all (fun q => !(A.kernelOf q).isEmpty)))
       | .error _ => pure Json.null
     pure (Json.mkObj [("ok", Json.bool (LR0.checkLR0 G A)), ("states_not_closure_of_kernel", natArr bad), ("productive", prod), ("start_kernel_ok", startOk)])
   | "table_ser" =>
